@@ -28,7 +28,11 @@ VARIABLES
   \* @type: Int;
   calls,
   \* @type: Int;
-  crashes
+  crashes,
+  \* @type: Bool;
+  dir,
+  \* @type: Int -> Bool;
+  dseen
 
 Procs == {1, 2}
 Exprs == {"e1", "e2", "e3"}
@@ -45,7 +49,7 @@ Dev == {}
 
 INSTANCE CacheFS
 
-PCs == {"idle", "stat", "openr", "load", "doit", "openw", "write", "replace", "ret"}
+PCs == {"idle", "mkdir", "mkdir2", "stat", "openr", "load", "doit", "openw", "write", "replace", "ret"}
 Srcs == Exprs \cup {None, "foreign"}
 
 TypeInv ==
@@ -59,6 +63,7 @@ TypeInv ==
   /\ wfd \in [Procs -> 0..MaxInodes]
   /\ woff \in [Procs -> 0..NChunks]
   /\ calls \in 0..MaxCalls /\ crashes \in 0..MaxCrashes
+  /\ dir \in BOOLEAN /\ dseen \in [Procs -> BOOLEAN]
 
 \* structure of the file system: only allocated inodes are linked or open; a key file that is a cache
 \* entry is complete and stored under the key of its expression; an inode reachable through a key name
@@ -86,10 +91,11 @@ FsInv ==
 PcInv ==
   \A p \in Procs :
     /\ pc[p] # "idle" => arg[p] \in Exprs
-    /\ pc[p] \in {"idle", "stat", "openr", "doit", "openw", "write", "replace", "ret"} => rfd[p] = 0
+    /\ pc[p] \in {"idle", "mkdir", "mkdir2", "stat", "openr", "doit", "openw", "write", "replace", "ret"} => rfd[p] = 0
     /\ pc[p] = "load" => rfd[p] # 0
-    /\ pc[p] \in {"idle", "stat", "openr", "load", "doit", "openw", "ret"} => wfd[p] = 0
-    /\ pc[p] \in {"idle", "stat", "openr", "load", "doit", "openw", "ret"} => link[Tmp(p)] = 0
+    /\ pc[p] \in {"idle", "mkdir", "mkdir2", "stat", "openr", "load", "doit", "openw", "ret"} => wfd[p] = 0
+    /\ pc[p] \in {"idle", "mkdir", "mkdir2", "stat", "openr", "load", "doit", "openw", "ret"} => link[Tmp(p)] = 0
+    /\ pc[p] # "mkdir2"          \* (only the deviation CheckThenMkdir goes there)
     /\ pc[p] = "write" => /\ wfd[p] # 0
                           /\ ino[wfd[p]].src = arg[p]
                           /\ ino[wfd[p]].len = woff[p]
@@ -97,11 +103,11 @@ PcInv ==
                             /\ ino[link[Tmp(p)]].src = arg[p]
                             /\ ino[link[Tmp(p)]].len = NChunks
     /\ pc[p] = "ret" => res[p] = arg[p]
-    /\ pc[p] \in {"stat", "openr", "load", "doit", "openw", "write", "replace"} => res[p] = None
+    /\ pc[p] \in {"mkdir", "stat", "openr", "load", "doit", "openw", "write", "replace"} => res[p] = None
     /\ res[p] # RAISED
 
-IndInv == TypeInv /\ FsInv /\ PcInv
+IndInv == TypeInv /\ FsInv /\ PcInv /\ DirHoldsFiles
 IndInit == IndInv
 \* the properties follow from the inductive invariant
-Props == ReturnsDoit /\ NeverRaises /\ KeyFilesComplete
+Props == ReturnsDoit /\ NeverRaises /\ KeyFilesComplete /\ DirHoldsFiles
 =============================================================================
